@@ -284,7 +284,16 @@ def gen_session(prop: str, tier: str, seed: int) -> dict:
         qd = [0] * d
     while d ** L > 243 and L > 1:
         L -= 1
-    cfg = {'world': 'gr', 'profile': profile, 'tier': tier, 'L': L, 'K': K, 'charges': ch, 'd': d, 'qd': qd, 'enabled': ['CBCALLS', 'CBBUF'], 'faultfree': True,
+    # operator ids are arbitrary integers for the user (the library's own models use -1): relabel 1..K
+    if rng.chance(0.4):
+        pool_ids = [-1, -2, -3, 7, 11, 100, 2, 5]
+        rng.shuffle(pool_ids)
+        idmap = {0: 0}
+        for o in range(1, K + 1):
+            idmap[o] = pool_ids[o - 1]
+    else:
+        idmap = {o: o for o in range(0, K + 1)}
+    cfg = {'world': 'gr', 'profile': profile, 'tier': tier, 'L': L, 'K': K, 'charges': ch, 'd': d, 'qd': qd, 'idmap': {str(k): v for k, v in idmap.items()}, 'enabled': ['CBCALLS', 'CBBUF'], 'faultfree': True,
            'opmap_seed': rng.sub()}
     nops = rng.randrange(3, 13) if tier == 'quick' else rng.randrange(4, 25)
     ops = []
@@ -296,8 +305,42 @@ def gen_session(prop: str, tier: str, seed: int) -> dict:
         ops.append(gen_op(rng, cfg, rng.wpick(table)))
     for op in ops:
         op['env'] = {'gauge': rng.sub(), 'kinds': []}
+    # relabel operator ids everywhere in the op specs
+    def rel_opics(lst):
+        return [[idmap[int(a)], b] for a, b in lst] if lst is not None else None
+
+    def rel_tree(node):
+        for e in node['children']:
+            e['oid'] = idmap[int(e['oid'])]
+            rel_tree(e['node'])
+    for op in ops:
+        if op['op'] == 'from_opchains':
+            for c in op['chains']:
+                c['oids'] = [idmap[int(x)] for x in c['oids']]
+            if 'mutate' in op:
+                op['mutate']['oid'] = idmap[int(op['mutate']['oid'])]
+        elif op['op'] == 'chain_as_matrix':
+            op['chain']['oids'] = [idmap[int(x)] for x in op['chain']['oids']]
+        elif op['op'] == 'from_optrees':
+            seen = set()
+            for t in op['trees']:
+                if t is not None and id(t['root']) not in seen:
+                    seen.add(id(t['root']))
+                    rel_tree(t['root'])
+        elif op['op'] == 'tree_as_matrix':
+            if op.get('tree') is not None:
+                rel_tree(op['tree']['root'])
+        elif op['op'] == 'from_automaton':
+            for e in op['autop']['edges']:
+                if 'opics' in e:
+                    e['opics'] = rel_opics(e['opics'])
+                if 'opics_table' in e:
+                    e['opics_table'] = [rel_opics(r) for r in e['opics_table']]
+        elif op['op'] == 'random_layered':
+            for e in op['graph']['edges']:
+                e['opics'] = rel_opics(e['opics'])
     # JSON keys must be strings
-    cfg['charges'] = {str(k): v for k, v in ch.items()}
+    cfg['charges'] = {str(idmap[k]): v for k, v in ch.items()}
     return {'world': 'gr', 'prop': prop, 'tier': tier, 'seed': seed, 'config': cfg, 'ops': ops}
 
 
